@@ -566,7 +566,9 @@ class NDNApp:
         try:
             data_name, content, pkt_context = await aio.wait_for(future, timeout=lifetime/1000.0)
         except TimeoutError:
-            if node.timeout(future):
+            # The node may have been removed already (its Interests were satisfied and are waiting for
+            # validation), and the name may now belong to a newer node
+            if node.timeout(future) and self._pit.get(node_name) is node:
                 del self._pit[node_name]
             raise types.InterestTimeout()
         except aio.CancelledError:
